@@ -27,9 +27,10 @@ import (
 // pool immediately before the transaction; everything else is the model's own bookkeeping.
 
 type c32Case struct {
-	N   int   `json:"n"`
-	Own int   `json:"own,omitempty"` // ownership layout of the genesis validators, see ownerOf
-	Ops []gop `json:"ops"`
+	N       int   `json:"n"`
+	Own     int   `json:"own,omitempty"`     // ownership layout of the genesis validators, see ownerOf
+	Persist bool  `json:"persist,omitempty"` // every block boundary flushes the block overlay into the store
+	Ops     []gop `json:"ops"`
 }
 
 func genC32(t *rapid.T) c32Case {
@@ -95,7 +96,8 @@ func genC32(t *rapid.T) c32Case {
 			return genPoolOp(t, n)
 		}
 	}), 4, ev.Scale(40, 90)).Draw(t, "ops")
-	c.Ops = append(setup, body...)
+	c.Persist = rapid.Bool().Draw(t, "persist")
+	c.Ops = sprinkleNext(t, append(setup, body...))
 	if c.Own != 0 { // candidates are registered by separate owner wallets too (one wallet may own several)
 		for i := range c.Ops {
 			if o := &c.Ops[i]; o.K == kRegCand && o.A == o.B {
@@ -120,7 +122,10 @@ func runC32(ctx *ev.Ctx, c c32Case) {
 	if c.N < 4 {
 		c.N = 4
 	}
-	e := newEng(ctx, c.N, 0, c.Own)
+	e := newEng(ctx, c.N, engOpts{own: c.Own, persist: c.Persist})
+	if c.Persist {
+		e.label("blocks-persisted")
+	}
 	e.label(fmt.Sprintf("ownership-layout:%d", mod(c.Own, 5)))
 	m := &c32Model{appr: map[string]map[common.Address]bool{}}
 	for _, top := range c.Ops {
@@ -314,6 +319,6 @@ func TestC32(t *testing.T) {
 		"cases: N=4..12 (thorough 40) genesis validators whose owner wallets (pool item Address) are the node addresses, separate wallets, or wallets owning 2-3 nodes; candidates registered by separate wallets; 2..8 request transactions, then 4..40 (thorough 90) ops: single approvals of the ten consensus-approved methods "+
 			"(approve candidate, black/white node, approve register/update/quit side chain, approve register/remove relayer, approve register/remove state validator) by validators, "+
 			"repeat approvers, owner wallets, spare nodes and outsiders (5% with a foreign witness), approval rounds by node addresses / owner wallets / both, further requests, quit/commitDpos/next-block. "+
-			"non-trivial: at least two (method, request) approval records were open at the same time, a non-validator's approval was accepted, and at least one approval took effect; distinct by JSON of the case",
+			"non-trivial: at least two (method, request) approval records were open at the same time, a non-validator's approval was accepted, and at least one approval took effect; in half of the cases every block boundary persists the block overlay into the store, and about one op in three is followed by a block boundary; distinct by JSON of the case",
 		genC32, runC32)
 }
